@@ -11,6 +11,10 @@ sys.dont_write_bytecode = True
 os.environ.setdefault("PYTHONDONTWRITEBYTECODE", "1")
 # one numba thread per worker process: the explorer parallelises over cases itself
 os.environ.setdefault("NUMBA_NUM_THREADS", "1")
+# The default OpenMP threading layer aborts a forked child that uses numba after its parent did; the workqueue
+# layer does not.  The process-snapshot search (mc/statespace.fork_search) forks from processes that have
+# already run the library's numba kernels.
+os.environ.setdefault("NUMBA_THREADING_LAYER", "workqueue")
 os.environ.setdefault("OMP_NUM_THREADS", "1")
 os.environ.setdefault("OPENBLAS_NUM_THREADS", "1")
 os.environ.setdefault("MKL_NUM_THREADS", "1")
